@@ -97,9 +97,11 @@ Proof. exact (ex_intro _ _ w_gam_set_params_dropped). Qed.
 Print Assumptions C14_model_set_params_refuted.
 
 (* build_from_info (info t) has the settings that determine columns / penalties / constraints of t -- also after compiling both
-   on the same data -- when t has no edge knots set (custom or from an earlier fit) and the attributes a FactorTerm hides
-   (spline_order, basis, dtype, by, constraints, n_splines) are at their constructor values.  A tensor term's `by` IS carried
-   over (since the repair "a tensor term rebuilt from its info lost its by-variable"); only its `verbose` flag is not. *)
+   on the same data -- when t has no edge knots GIVEN BY THE USER (knots left by an earlier fit are regenerated by every compile
+   since "fix: a spline term kept the knots of the first data set it was compiled on", and are not part of `behav`; nor is a
+   factor term's n_splines) and the attributes a FactorTerm hides (spline_order, basis, dtype, by, constraints) are at their
+   constructor values.  A tensor term's `by` IS carried over (since the repair "a tensor term rebuilt from its info lost its
+   by-variable"); only its `verbose` flag is not. *)
 Theorem C14_info_roundtrip_partial :
   (forall t, wf_term t -> roundtrip_guard t = true -> exists t', build_from_info (info t) = Some t' /\ behav t' = behav t) /\
   (forall dk nc t, wf_term t -> roundtrip_guard t = true ->
@@ -108,7 +110,8 @@ Proof. exact (conj info_roundtrip_guarded info_roundtrip_compiled_guarded). Qed.
 Print Assumptions C14_info_roundtrip_partial.
 
 Example C14_info_roundtrip_nonvacuous :
-  let t := TTe [SS w_spline; SF (mkS 1 20 0 [NI 2] [Some "l2"] [None] "ps" "categorical" None None true) "dummy"] (Some 2%Z) true in
+  let t := TTe [SS (mkS 0 6 3 [NF 3 (-2)] [Some "auto"] [None] "ps" "numerical" None (Some (false, [NI 0; NI 1])) false);
+                SF (mkS 1 4 0 [NI 2] [Some "l2"] [None] "ps" "categorical" None (Some (false, [NI 0; NI 3])) true) "dummy"] (Some 2%Z) true in
   wf_term t /\ roundtrip_guard t = true.
 Proof. cbv zeta. split; [wf | reflexivity]. Qed.
 
@@ -127,14 +130,17 @@ Theorem C14_info_roundtrip_refuted_hidden_factor :
 Proof. exact (ex_intro _ w_factor_order w_factor_order_refutes). Qed.
 Print Assumptions C14_info_roundtrip_refuted_hidden_factor.
 
-(* what build_penalties returns is a function of the CURRENT hyper-parameters (Model/C14Pen.v translates a term into the penalty
-   model of C04): equal settings give equal penalties; after an accepted assignment -- whatever was built or assigned before --
-   the penalty is that of any term list constructed with the resulting settings; and (under the round-trip guard) that of the
-   term rebuilt from its info.  The harness compares penalty_now with the implementation after interleaved uses/assignments. *)
+(* what build_penalties returns for a term list compiled on data is a function of the CURRENT hyper-parameters (Model/C14Pen.v
+   translates a term into the penalty model of C04): equal settings give equal penalties; after an accepted assignment --
+   whatever was built or assigned before -- the penalty is that of any term list constructed with the resulting settings; and
+   (under the round-trip guard) that of the term rebuilt from its info.  The harness compares penalty_now with the
+   implementation after interleaved uses / assignments. *)
 Theorem C14_penalty_function_of_settings :
-  (forall ts us, map behav ts = map behav us -> penalty_now ts = penalty_now us) /\
-  (forall name v ts ts' fresh, tl_set name v ts = (Ok, ts') -> map behav fresh = map behav ts' -> penalty_now fresh = penalty_now ts') /\
-  (forall t, wf_term t -> roundtrip_guard t = true -> exists t', build_from_info (info t) = Some t' /\ pen_term t' = pen_term t).
+  (forall dk nc ts us, map behav ts = map behav us -> penalty_now (map (compile dk nc) ts) = penalty_now (map (compile dk nc) us)) /\
+  (forall dk nc name v ts ts' fresh, tl_set name v ts = (Ok, ts') -> map behav fresh = map behav ts' ->
+     penalty_now (map (compile dk nc) fresh) = penalty_now (map (compile dk nc) ts')) /\
+  (forall dk nc t, wf_term t -> roundtrip_guard t = true ->
+     exists t', build_from_info (info t) = Some t' /\ pen_term (compile dk nc t') = pen_term (compile dk nc t)).
 Proof. exact (conj penalty_now_settings (conj penalty_after_assign penalty_rebuilt)). Qed.
 Print Assumptions C14_penalty_function_of_settings.
 
